@@ -64,6 +64,9 @@ DISTS = ["dict", "dict_zeros", "det", "uniform"]
 BREPS = ["returned", "zeros", "dict", "native"]
 # how a Belief tuple (states, probs) is handed to the functions that accept one: as the library builds it
 # (states = state_list), with the states in another order, or listing the supported states only
+# what the model's is_absorbing(s) answers with: a Python bool, a numpy.bool_ (array-specified models, cf.
+# from_matrices' absorbing_state_vec[...]) or a 0/1 integer - all of them legitimate truth values
+ABS_REPS = ["bool", "npbool", "npbool", "int"]
 TUPLE_REPS = ["canonical", "permuted", "permuted", "support"]
 
 
@@ -103,7 +106,7 @@ def make_cases(rng, n, tier):
                    explicit_list=rng.random() < 0.5, dist=rng.choice(DISTS), odist=rng.choice(DISTS),
                    outside=None, brep=rng.choice(BREPS), keyperm=False,
                    agrep=rng.choice(TUPLE_REPS), keyrep=rng.choice(TUPLE_REPS), statedep_actions=False,
-                   declare_lists=rng.random() < 0.3)
+                   declare_lists=rng.random() < 0.3, absrep=rng.choice(ABS_REPS))
         # state-dependent action sets: terminal (and a few other) states offer a subset of the actions
         if K >= 2 and rng.random() < 0.4:
             rep["statedep_actions"] = pb.restrict_actions(rng, m)
@@ -140,7 +143,7 @@ def make_cases(rng, n, tier):
                    explicit_list=True, dist=rng.choice(DISTS), odist=rng.choice(DISTS),
                    outside=None, brep=rng.choice(BREPS), keyperm=False,
                    agrep=rng.choice(TUPLE_REPS), keyrep=rng.choice(TUPLE_REPS), statedep_actions=False,
-                   declare_lists=rng.random() < 0.3)
+                   declare_lists=rng.random() < 0.3, absrep=rng.choice(ABS_REPS))
         m["alpha"] = [rng.randint(-2, 2) for _ in range(m["N"])]
         m["beliefs"] = [list(m["p0"])] + beliefs
         m["D"], m["DB"], m["LL"] = 1, 1, 0
@@ -291,6 +294,13 @@ class Judge:
         self.B = B = pb.build_pomdp(mb, rng=rng, **{k: v for k, v in rep.items() if k != "rng"})
         B.m = m
         p = self.p = B.pomdp
+        absrep = rep.get("absrep", "bool")
+        if absrep != "bool":        # before anything is cached on the object (reachability uses is_absorbing)
+            flags = np.array([bool(x) for x in mb["abs"]])
+            if absrep == "npbool":
+                p.is_absorbing = lambda s, _f=flags, _B=B: _f[_B.sidx(s)]            # numpy.bool_
+            else:
+                p.is_absorbing = lambda s, _f=flags, _B=B: int(_f[_B.sidx(s)])       # 0 / 1
         self.node_ok = True
         shape = {"obs-zero": "zero-entry-outside-observation-list",
                  "state-zero": "zero-entry-outside-state-list", None: "regular"}[rep["outside"]]
@@ -620,6 +630,72 @@ class Judge:
                         "rep": self.rep, "machine": "filter", "initial_belief": root["bv"], "history": rec["hist"],
                         "expected_belief_weights": rec["bv"], "real_dict_belief": {str(k): v for k, v in rd.items()}}, limit=3)
 
+    # ------------------------------------------------------------------ belief recorded along simulated episodes
+    def run_rollouts(self, n_runs=6):
+        """policy.run_on(pomdp) simulates an episode and records, per step, the agent state before the step and
+        the one after it (Step.agentstate / Step.nextagentstate; the terminal record carries the last belief).
+        The (action, observation) history of the episode is a behaviour of the filter machine started at the
+        POMDP's own initial distribution (initial belief 1), so every recorded belief - in particular the one
+        recorded when the episode ENTERS an absorbing state - must be the Bayes posterior TLC emitted for it."""
+        m, B, p, ctx = self.m, self.B, self.p, self.ctx
+        if self.sdtag:
+            # a value-based policy ranges over the whole action list, also over actions that the hidden state does
+            # not offer: episodes of such models have no defined semantics
+            ctx.skip("episodes not simulated: state-dependent action sets")
+            return
+        pos = {n: i for i, n in enumerate(self.spos)}
+        for run in range(n_runs):
+            rng = random.Random(digest(self.case) + f"rollout{run}")
+            self.node_ok = True
+            traj = self.call("POMDPPolicy.run_on", "", None, lambda: self.pol.run_on(p, max_steps=m["D"], rng=rng))
+            if traj is None:
+                continue
+            h = ()
+            ok = True
+            for i, st in enumerate(traj):
+                rec = self.recs.get(("filter", 1, h))
+                if rec is None or rec["phase"] != "live":
+                    raise TLCFailure(f"case {self.idx}: episode history {h} is not a live behaviour of the filter machine")
+                shape = shape_of(rec["bv"], m) + self.sdtag
+
+                def belief_ok(ag, exp_rec, what, tag):
+                    try:
+                        d = dict(zip(ag.states, [float(x) for x in ag.probs]))
+                    except Exception:                                # noqa: BLE001
+                        self.fail("POMDPPolicy.run_on", "recorded-agentstate-is-not-a-belief", tag, f"{what} = {ag!r}", exp_rec)
+                        return False
+                    return self.cmp_belief("POMDPPolicy.run_on", exp_rec, tag,
+                                           lambda n: d.get(B.slabel[n], 0.0) if n in pos else None,
+                                           exact_belief(exp_rec["bv"]), clause=f"{what}-is-not-the-bayes-posterior-of-the-episode-history")
+                if not belief_ok(st.agentstate, rec, "recorded-agentstate", shape):
+                    ok = False
+                    break
+                if st.action is None:            # terminal record
+                    break
+                a, o = B.aidx(st.action), B.oidx(st.observation)
+                if not rec["la"] or (a + 1) not in rec["la"]["allowed"]:
+                    ctx.count("episodes_cut_at_an_action_unavailable_in_a_supported_state")
+                    break
+                hc = h + ((a + 1, o + 1),)
+                child = self.recs.get(("filter", 1, hc))
+                if child is None or child["phase"] != "live":
+                    if "m_build" in self.case:      # selftest: msdm was deliberately handed another instance
+                        self.fail("POMDPPolicy.run_on", "episode-impossible-in-the-model", shape, f"history {hc}", rec)
+                        ok = False
+                        break
+                    raise TLCFailure(f"case {self.idx}: sampled observation is impossible in the model at {hc}")
+                entering = bool(m["abs"][B.sidx(st.nextstate)])
+                tag = shape + ("+entering-absorbing-state" if entering else "")
+                if entering:
+                    ctx.count("episode_steps_entering_an_absorbing_state")
+                if not belief_ok(st.nextagentstate, child, "recorded-nextagentstate", tag):
+                    ok = False
+                    break
+                h = hc
+            if ok:
+                ctx.validated += 1
+                ctx.count("episodes_validated")
+
     # ------------------------------------------------------------------ the filter machine, aliasing call history
     def run_inplace(self, b0, max_paths=8):
         """Replays behaviours of the filter machine the way a belief filter that keeps ONE belief object does:
@@ -845,6 +921,8 @@ class Judge:
         for b0 in range(1, len(self.m["beliefs"]) + 1):
             self.run_filter(b0)
             self.run_inplace(b0)
+            if b0 == 1:
+                self.run_rollouts()
             self.run_bmdp(b0)
         self.verify_kept()
         if self.ok:
@@ -945,6 +1023,9 @@ def run(ctx):
         "the Bayes filter and the belief reward use the declared rows of absorbing states (literal reading); "
         "75% of the instances have self-looping zero-reward absorbing states where both readings coincide",
         "beliefs are supported on the state list",
+        "is_absorbing(s) of the model answers with a bool, a numpy.bool_ or a 0/1 integer (per case); 6 episodes per case are "
+        "simulated with policy.run_on (seeded, max_steps = depth bound) and every recorded agent state is compared with the "
+        "filter machine's state for the episode's action/observation history (not for state-dependent action sets)",
         "30% of the cases declare observation_list / action_list as class attributes in a non-sorted order (as LoadUnload does); "
         "label kind 'falsy' uses None, '', (), 0; up to 8 behaviours per (case, initial belief) are additionally replayed with one "
         "belief object / array overwritten in place between the calls",
